@@ -462,8 +462,61 @@ def check_tree(case):
     return None
 
 
+# ----------------------------------------------------------------------------- exact table scores
+def gen_table(tier, seed):
+    """decomposable scores given by a table of dyadic per-edge bonuses: score deltas are exact, so `epsilon` can be hit exactly"""
+    rng = O.mk_rng(seed, "c11-table")
+    for i in range(60 if tier == "quick" else 400):
+        n = rng.choice((3, 4, 4, 5))
+        names = O.node_names(n, ("long", "x")[i % 2])
+        bonus = [[a, b, rng.choice((-2, -1, -0.5, 0.5, 1, 1, 2, 3))] for a, b in itertools.permutations(names, 2) if rng.random() < 0.7]
+        start = O.random_dag(rng, n, rng.choice((0.0, 0.3, 0.6)), names)
+        yield {"names": names, "bonus": bonus, "default": rng.choice((-2, -1, -0.25)), "start": start, "epsilon": rng.choice((0.5, 1, 1, 2)),
+               "use_cache": bool(i % 2), "max_indegree": rng.choice((None, None, 2))}
+
+
+def check_table(case):
+    import pandas as pd
+    from pgmpy.base import DAG
+    from pgmpy.estimators import HillClimbSearch, StructureScore
+
+    _quiet()
+    names, eps = case["names"], case["epsilon"]
+    bonus = {(a, b): w for a, b, w in case["bonus"]}
+    default = case["default"]
+
+    class TableScore(StructureScore):
+        def local_score(self, variable, parents):
+            return sum(bonus.get((p, variable), default) for p in parents)
+
+    data = pd.DataFrame([[(i * (j + 1)) % 2 for j in range(len(names))] for i in range(8)], columns=names)
+    start = DAG()
+    start.add_nodes_from(names)
+    start.add_edges_from([tuple(e) for e in case["start"]])
+    base = {tuple(e) for e in case["start"]}
+    mi = case["max_indegree"]
+    res = HillClimbSearch(data, use_cache=case["use_cache"]).estimate(scoring_method=TableScore(data), start_dag=start.copy(), tabu_length=0, epsilon=eps,
+                                                                      max_indegree=mi, max_iter=10 ** 4, show_progress=False)
+    E = {tuple(e) for e in res.edges()}
+    tag = f"table score bonus={case['bonus']} default={default} epsilon={eps} max_indegree={mi} cache={case['use_cache']}: start {sorted(base)} -> {sorted(E)}"
+    if set(res.nodes()) != set(names) or not O.is_acyclic(names, list(E)):
+        return {"key": "estimate:table-score:not-a-dag-on-the-variables", "what": tag}
+    total = lambda ed: sum(bonus.get((a, b), default) for a, b in ed)  # noqa
+    s1 = total(E)
+    if s1 < total(base):
+        return {"key": "estimate:table-score:score-decreased", "what": tag}
+    for kind, (X, Y), E2 in legal_moves(names, E, set(), set(), None, mi):
+        delta = total(E2) - s1   # exact (dyadic) arithmetic
+        if delta >= eps:
+            return {"key": "estimate:table-score:not-local-optimum", "what": tag + f": legal move {kind}{(X, Y)} improves the score by {delta} >= epsilon={eps}"}
+    return None
+
+
 def groups(tier):
     return [
+        Group("table_score", gen_table, check_table, None, seed_fanout=1, engine="E3",
+              bound="60 (400) custom decomposable scores (dyadic per-edge bonus tables) on 3..5 variables, random start DAG, epsilon 0.5/1/2, tabu_length 0, "
+                    "max_indegree none/2, cache on/off: exact score deltas, so moves improving by exactly epsilon are decided"),
         Group("hill_climb", gen_hc, check_hc, None, seed_fanout=2, engine="E3",
               bound="seeded discrete data sets, 2..4 columns (thorough: ..5), cards <= 3, 20..60 rows, 6 option sets each: scoring k2/bdeu/bds/bic/aic by name or "
                     "scorer instance, start DAG (none / random / every DAG on <= 3 nodes), fixed edges, black/white lists (set or list), max_indegree none/1/2, "
